@@ -69,6 +69,8 @@ def random_scenario(rng):
         startup.append("reload")
     elif r < 0.4:
         input_cmd = "echo a; echo b; sleep 1005"
+    if startup and cfg.get("height", "").startswith("~") or input_cmd and cfg.get("height", "").startswith("~"):
+        cfg["height"] = "8"      # adaptive height waits for the end of the input: never, with these input commands
     steps = []
     alive = set(startup)
     if input_cmd:
@@ -416,7 +418,10 @@ def run(ctx):
         evs2 = runner(sc)(ctx, fzf, ix, sc)
         acc2, r2 = validate(ctx, evs2, "re-%d" % ix, diag=True)
         if ix in acc2 and acc2[ix] == 0 and not ctx.replay:
-            raise Infra("life %d (%s): %s - not reproduced on a second run" % (ix, sc["kind"], first))
+            dump = os.path.join(ctx.work, "..", "C14-unreproduced-%d.json" % ix)
+            with open(dump, "w") as fh:
+                json.dump({"scenario": sc, "events": results[ix], "what": first}, fh)
+            raise Infra("life %d (%s): %s - not reproduced on a second run (kept: %s)" % (ix, sc["kind"], first, os.path.abspath(dump)))
         if ix in acc2:
             continue        # second run shows only the known deviation
         what = "life %d (%s, %s %s): %s" % (ix, sc["kind"], lifecycle.cfg_args(sc["cfg"]), sc.get("extra"), describe_rejection(evs2, furthest(r2)))
